@@ -308,6 +308,7 @@ func (a *Authority) UpdateProvisioner(ctx context.Context, nu *linkedca.Provisio
 		return admin.WrapErrorISE(err, "error initializing provisioner %s", nu.Name)
 	}
 
+	old, _ := a.provisioners.Load(certProv.GetID())
 	if err := a.provisioners.Update(certProv); err != nil {
 		return admin.WrapErrorISE(err, "error updating provisioner '%s' in authority cache", nu.Name)
 	}
@@ -316,6 +317,13 @@ func (a *Authority) UpdateProvisioner(ctx context.Context, nu *linkedca.Provisio
 			return admin.WrapErrorISE(err, "error reloading admin resources on failed provisioner update")
 		}
 		return admin.WrapErrorISE(err, "error updating provisioner '%s'", nu.Name)
+	}
+	// The admin collection is indexed by provisioner name; rebuild it if the
+	// provisioner has been renamed.
+	if old != nil && old.GetName() != nu.GetName() {
+		if err := a.ReloadAdminResources(ctx); err != nil {
+			return admin.WrapErrorISE(err, "error reloading admin resources after renaming provisioner '%s'", nu.Name)
+		}
 	}
 	return nil
 }
